@@ -63,6 +63,9 @@ def find_impl(repo, c: Contract, ctx):
     return repo.find_method(ctx or cls, name)
 
 
+TRANSPARENT_DECORATORS = {"property", "classmethod", "staticmethod", "wraps(func)"}
+
+
 def run_function(eng: Engine, c: Contract, ctx, fi: FuncInfo, alias=None, lemma_node=None, variant=None):
     """symbolically execute one body; returns (executor, env0, pre, state list)"""
     ex = Executor(eng, funcname=(f"{ctx}::{c.key}" if ctx and not c.key.startswith(ctx + ".") else c.key)
@@ -76,6 +79,12 @@ def run_function(eng: Engine, c: Contract, ctx, fi: FuncInfo, alias=None, lemma_
     st = State()
     env = {}
     node = fi.node if fi is not None else lemma_node
+    for d in getattr(node, "decorator_list", []) if fi is not None else []:
+        text = ast.unparse(d)
+        if text in TRANSPARENT_DECORATORS or text.endswith(".setter") or text in c.decorators:
+            continue
+        raise Unsupported(f"decorator @{text} on {c.key}: a call runs the decorator's wrapper, which the contract does not "
+                          "describe")
     argnames = [a.arg for a in node.args.args]
     annots = {a.arg: a.annotation for a in node.args.args}
     if node.args.vararg or node.args.kwarg:
